@@ -203,6 +203,8 @@ fn ll_cell(med: Med, multicast: bool) -> Cell {
         prefix: Prefix::NoPrefix,
         auto_first: None,
         layout: Layout::Same2,
+        routes: RouteCfg::DefaultForeign,
+        any_ip: false,
     }
 }
 
